@@ -113,7 +113,7 @@ func NewMergedResultSet(results []ResultSet) ResultSet {
 	}
 
 	mrs := &mergedResultSet{first: true}
-	mrs.heap.init(results)
+	mrs.err = mrs.heap.init(results)
 	return mrs
 }
 
@@ -127,6 +127,11 @@ func (r *mergedResultSet) Close() {
 }
 
 func (r *mergedResultSet) Next() bool {
+	if r.err != nil {
+		// one of the inputs failed before it produced anything
+		r.Close()
+		return false
+	}
 	if len(r.heap.items) == 0 {
 		return false
 	}
@@ -172,21 +177,28 @@ type resultSetHeap struct {
 	items []ResultSet
 }
 
-func (h *resultSetHeap) init(results []ResultSet) {
+// init primes the heap. It returns the error of the first input that failed
+// instead of producing a first series.
+func (h *resultSetHeap) init(results []ResultSet) error {
 	if cap(h.items) < len(results) {
 		h.items = make([]ResultSet, 0, len(results))
 	} else {
 		h.items = h.items[:0]
 	}
 
+	var err error
 	for _, rs := range results {
 		if rs.Next() {
 			h.items = append(h.items, rs)
 		} else {
+			if e := rs.Err(); e != nil && err == nil {
+				err = e
+			}
 			rs.Close()
 		}
 	}
 	heap.Init(h)
+	return err
 }
 
 func (h *resultSetHeap) Less(i, j int) bool {
